@@ -1,0 +1,90 @@
+//go:build verif
+
+// Contracts for package zapio, read by /verif/govc. Comment-only.
+//
+// Ghost state: logged[w] is the concatenation of (message ++ "\n") over all messages w has
+// handed to its logger (extended, by definition, by every call of w.log); bbuf[&w.buff] is the
+// buffered, not yet logged, partial line. Stream conservation:
+//      logged' ++ buff'  ==  logged ++ buff ++ input
+// for every Write, together with noNL(buff) and "every message is newline-free", says that the
+// messages are exactly the newline-delimited lines of the byte stream, however it is chunked.
+
+package zapio
+
+//@ ghost var logged map(Ref,Bytes)
+
+//@ func (*zapio.Writer).log
+//@   props C17
+//@   flags nopanic propagates-panics
+//@   requires w != nil && w.Log != nil && w.Log.core != nil && w.Log.clock != nil && w.Log.addStack != nil && w.Log.errorOutput != nil
+//@   requires 0 <= w.Log.callerSkip && w.Log.callerSkip <= 1 << 20
+//@   track CK = call (*zap.Logger).Check
+//@   ghost-set logged[w] = cat(logged[w], seq(b), "\n")
+//@   modifies $user, comp(E:zapcore.Core), comp(E:uint8), comp(E:uintptr), stacktrace.Formatter.nonEmpty
+//@   ensures #CK == 1 && CK.recv[0] == old(w.Log) && CK.arg0[0] == old(w.Level) && CK.arg1[0] == old(seq(b))
+//@   ensures bbuf[&w.buff] == old(bbuf[&w.buff])
+//@   ensures elems_frame(type(uint8), zero(type([]uint8)))
+
+//@ func (*zapio.Writer).flush
+//@   props C17
+//@   flags nopanic propagates-panics
+//@   requires w != nil && w.Log != nil && w.Log.core != nil && w.Log.clock != nil && w.Log.addStack != nil && w.Log.errorOutput != nil
+//@   requires 0 <= w.Log.callerSkip && w.Log.callerSkip <= 1 << 20
+//@   modifies logged[w], bbuf[&w.buff], $user, comp(E:zapcore.Core), comp(E:uint8), comp(E:uintptr), stacktrace.Formatter.nonEmpty
+//@   ensures bbuf[&w.buff] == ""
+//@   ensures elems_frame(type(uint8), zero(type([]uint8)))
+//@   ensures allowEmpty || len(old(bbuf[&w.buff])) > 0 ==> logged[w] == cat(old(logged[w]), old(bbuf[&w.buff]), "\n")
+//@   ensures !(allowEmpty || len(old(bbuf[&w.buff])) > 0) ==> logged[w] == old(logged[w])
+
+//@ func (*zapio.Writer).writeLine
+//@   props C17
+//@   flags nopanic propagates-panics
+//@   requires w != nil && w.Log != nil && w.Log.core != nil && w.Log.clock != nil && w.Log.addStack != nil && w.Log.errorOutput != nil
+//@   requires 0 <= w.Log.callerSkip && w.Log.callerSkip <= 1 << 20
+//@   requires noNL(bbuf[&w.buff])
+//@   modifies logged[w], bbuf[&w.buff], $user, comp(E:zapcore.Core), comp(E:uint8), comp(E:uintptr), stacktrace.Formatter.nonEmpty
+//@   ensures noNL(bbuf[&w.buff])
+//@   ensures elems_frame(type(uint8), zero(type([]uint8)))
+//@   ensures cat(cat(logged[w], bbuf[&w.buff]), seq(remaining)) == cat(cat(old(logged[w]), old(bbuf[&w.buff])), old(seq(line)))
+//@   ensures len(remaining) < len(line) || len(line) == 0
+//@   ensures noNL(old(seq(line))) ==> logged[w] == old(logged[w]) && len(remaining) == 0
+
+//@ func (*zapio.Writer).Write
+//@   props C17 C13
+//@   flags nopanic propagates-panics
+//@   requires w != nil && w.Log != nil && w.Log.core != nil && w.Log.clock != nil && w.Log.addStack != nil && w.Log.errorOutput != nil
+//@   requires 0 <= w.Log.callerSkip && w.Log.callerSkip <= 1 << 20
+//@   requires noNL(bbuf[&w.buff])
+//@   track EN = invoke zapcore.Core.Enabled
+//@   modifies logged[w], bbuf[&w.buff], $user, comp(E:zapcore.Core), comp(E:uint8), comp(E:uintptr), stacktrace.Formatter.nonEmpty
+//@   ensures n == len(bs) && err == nil
+//@   ensures noNL(bbuf[&w.buff])
+//@   ensures #EN == 1 && EN.arg0[0] == old(w.Level)
+//@   ensures !EN.ret0[0] ==> logged[w] == old(logged[w]) && bbuf[&w.buff] == old(bbuf[&w.buff])
+//@   ensures EN.ret0[0] ==> cat(logged[w], bbuf[&w.buff]) == cat(cat(old(logged[w]), old(bbuf[&w.buff])), old(seq(bs)))
+//@   loop 1 invariant #EN == 1 && EN.ret0[0] && noNL(bbuf[&w.buff]) && w.Log == old(w.Log) && w.Level == old(w.Level)
+//@   loop 1 invariant w.Log != nil && w.Log.core != nil && w.Log.clock != nil && w.Log.addStack != nil && w.Log.errorOutput != nil && 0 <= w.Log.callerSkip && w.Log.callerSkip <= 1 << 20
+//@   loop 1 invariant elems_frame(type(uint8), zero(type([]uint8)))
+//@   loop 1 invariant forall r Ref :: r != w ==> logged[r] == old(logged[r])
+//@   loop 1 invariant forall r Ref :: r != &w.buff ==> bbuf[r] == old(bbuf[r])
+//@   loop 1 invariant cat(cat(logged[w], bbuf[&w.buff]), seq(bs)) == cat(cat(old(logged[w]), old(bbuf[&w.buff])), old(seq(param(bs))))
+
+//@ func (*zapio.Writer).Sync
+//@   props C17
+//@   flags nopanic propagates-panics
+//@   requires w != nil && w.Log != nil && w.Log.core != nil && w.Log.clock != nil && w.Log.addStack != nil && w.Log.errorOutput != nil
+//@   requires 0 <= w.Log.callerSkip && w.Log.callerSkip <= 1 << 20
+//@   modifies logged[w], bbuf[&w.buff], $user, comp(E:zapcore.Core), comp(E:uint8), comp(E:uintptr), stacktrace.Formatter.nonEmpty
+//@   ensures result == nil && bbuf[&w.buff] == ""
+//@   ensures len(old(bbuf[&w.buff])) > 0 ==> logged[w] == cat(old(logged[w]), old(bbuf[&w.buff]), "\n")
+//@   ensures len(old(bbuf[&w.buff])) == 0 ==> logged[w] == old(logged[w])
+
+//@ func (*zapio.Writer).Close
+//@   props C17
+//@   flags nopanic propagates-panics
+//@   requires w != nil && w.Log != nil && w.Log.core != nil && w.Log.clock != nil && w.Log.addStack != nil && w.Log.errorOutput != nil
+//@   requires 0 <= w.Log.callerSkip && w.Log.callerSkip <= 1 << 20
+//@   modifies logged[w], bbuf[&w.buff], $user, comp(E:zapcore.Core), comp(E:uint8), comp(E:uintptr), stacktrace.Formatter.nonEmpty
+//@   ensures result == nil && bbuf[&w.buff] == ""
+//@   ensures len(old(bbuf[&w.buff])) > 0 ==> logged[w] == cat(old(logged[w]), old(bbuf[&w.buff]), "\n")
+//@   ensures len(old(bbuf[&w.buff])) == 0 ==> logged[w] == old(logged[w])
